@@ -2883,7 +2883,10 @@ bool oas_validate(const char* filename, uint32_t* signature, ErrorCode* error_co
         little_endian_swap32(&sig, 1);
         if (signature) *signature = sig;
         // printf("CRC32: 0x%08X == 0x%08X\n", sig, *(uint32_t*)(file_sum + 1));
-        if (sig != *(uint32_t*)(file_sum + 1)) return false;
+        if (sig != *(uint32_t*)(file_sum + 1)) {
+            fclose(in);
+            return false;
+        }
     } else if (file_sum[0] == 2) {
         // Checksum32
         uint32_t sig = 0;
@@ -2904,13 +2907,17 @@ bool oas_validate(const char* filename, uint32_t* signature, ErrorCode* error_co
         little_endian_swap32(&sig, 1);
         if (signature) *signature = sig;
         // printf("Checksum32: 0x%08X == 0x%08X\n", sig, *(uint32_t*)(file_sum + 1));
-        if (sig != *(uint32_t*)(file_sum + 1)) return false;
+        if (sig != *(uint32_t*)(file_sum + 1)) {
+            fclose(in);
+            return false;
+        }
     } else {
         // No checksum
         if (error_code) *error_code = ErrorCode::ChecksumError;
         if (signature) *signature = 0;
     }
 
+    fclose(in);
     return true;
 }
 
